@@ -29,6 +29,11 @@ EXCEPT_TABLE = {
     ("transformer.py", "TreeToODE._call_userfunc_token", "lark.GrammarError"): "re-raised",
 }
 EXCEPT_OUT_OF_SCOPE = {"myokit.py": "Myokit import/export (C15)"}
+# functions that only parse annotations / optional tooling: whichever exception types they handle, no model error can be swallowed there
+ANY_TYPE_OK = {
+    ("atoms.py", "unit_from_string"), ("transformer.py", "get_unit_and_comment_from_assignment"), ("cli/utils.py", "read_config"),
+    ("codegen/base.py", "CodeGenerator._format"), ("codegen/c.py", "get_formatter"), ("codegen/python.py", "get_formatter"),
+}
 
 
 def innermost_func(sm, rel, node_line_owner):
@@ -157,7 +162,7 @@ def run(ctx: Ctx):
                             continue
                         seen.add(k)
                         ctx.check(
-                            k in EXCEPT_TABLE,
+                            k in EXCEPT_TABLE or (short, f.qualname) in ANY_TYPE_OK,
                             "R08.c",
                             key,
                             EXCEPT_TABLE.get(k, ""),
